@@ -115,6 +115,11 @@ func c14Case(tier string, seed int64, idx int, scratch string) rt.CaseResult {
 	}
 	steps := seqrun.Generate(rng, p)
 	eo := dbx.Options{Mode: dbx.Inline, Dir: filepath.Join(scratch, "db"), Roots: 1 + idx%3, SendDuration: sendDur(idx), NumWorkers: 1 + idx%2}
+	if idx%4 == 3 {
+		// through the gRPC server: commits and rollbacks arrive with request-scoped contexts
+		// that are cancelled as soon as the handler returns
+		eo.Mode = dbx.Grpc
+	}
 	env, err := dbx.Open(eo)
 	if err != nil {
 		c.Violate("open-failed", err.Error(), nil)
